@@ -167,7 +167,15 @@ impl Property for C17 {
         p.csum_pm = *rng.pick(&[0, 400, 600]);
         p.always_pm = *rng.pick(&[0, 0, 200]);
         p.max_work_ms = 0;
-        let g = gen_graph(rng, &p);
+        let mut g = gen_graph(rng, &p);
+        // one rule in a third of the scenarios watches for a path (`w0`) with
+        // the ifcreate idiom; the user creates it later: a file redo knows
+        // about (from the must-not-exist record) but has never stamped
+        let watch = rng.chance(1, 3);
+        if watch {
+            let i = rng.below(g.rules.len() as u64) as usize;
+            g.rules[i].1.stmts.insert(0, Stmt::IfExists("w0".into()));
+        }
         let mut sc = g.scenario("c17");
         let top = g.top();
         let mut key = 1u64;
@@ -240,6 +248,15 @@ impl Property for C17 {
                 let q = query(rng);
                 sc.history.push(Step::Cmds(vec![keyed(q)]));
             }
+        }
+        if watch {
+            sc.history.push(Step::Write {
+                path: "w0".into(),
+                bytes: b"now it exists\n".to_vec(),
+            });
+            sc.history.push(Step::Cmds(vec![keyed(Cmd::new(&["redo-ood"]))]));
+            sc.history.push(Step::Cmds(vec![keyed(Cmd::new(&["redo-targets"]))]));
+            sc.history.push(Step::Cmds(vec![keyed(Cmd::new(&["redo-sources"]))]));
         }
         let q = query(rng);
         sc.history.push(Step::Cmds(vec![keyed(q)]));
